@@ -383,3 +383,33 @@ func TypeName(v any) string {
 	}
 	return fmt.Sprintf("%T", v)
 }
+
+// Sentinel is stored beyond len() in the spare capacity of arrays built by CopySpare;
+// if it ever becomes visible, somebody extended a slice in place.
+const Sentinel = "\x00SENTINEL\x00"
+
+// CopySpare deep-copies v giving every array spare capacity filled with sentinels, so
+// that an in-place append or a write through a shared backing array becomes observable.
+func CopySpare(v any) any {
+	switch v := v.(type) {
+	case []any:
+		w := make([]any, len(v), len(v)+3)
+		for i, x := range v {
+			w[i] = CopySpare(x)
+		}
+		full := w[:cap(w)]
+		for i := len(v); i < len(full); i++ {
+			full[i] = Sentinel
+		}
+		return w
+	case map[string]any:
+		w := make(map[string]any, len(v))
+		for k, x := range v {
+			w[k] = CopySpare(x)
+		}
+		return w
+	case *big.Int:
+		return new(big.Int).Set(v)
+	}
+	return v
+}
